@@ -204,7 +204,7 @@ class C09(Prop):
                     toks += [LP, I("dt"), T("string"), RP]
                     break
                 else:
-                    toks.append((w, "K"))
+                    toks.append((w, "V" if w == "PARQUET" else "K"))  # the format word is echoed as written
         toks.append(END)
         return toks, ty_text, exp_size
 
